@@ -2,6 +2,7 @@ import Model.Sponge
 import Proofs.Sponge
 import Model.Hash
 import Extracted.Consts
+import Proofs.KmacEnc
 
 /-! # C13 — hashers and KMAC128 equal their standards for all inputs and chunkings
 
@@ -113,6 +114,38 @@ theorem bytepad_aligned_minimal (x : Bytes) (w : Nat) (hw : 0 < w) :
     omega
   · rw [← List.length_append, List.take_left]
 
+/-- **`left_encode` and `right_encode` of the code equal SP 800-185 for every 64-bit value** -/
+theorem encoders_spec (v : Nat) (hv : v < 2 ^ 64) :
+    KmacEnc.Code.leftEncode v = KmacEnc.Spec.leftEncode v ∧ KmacEnc.Code.rightEncode v = KmacEnc.Spec.rightEncode v :=
+  ⟨KmacEnc.leftEncode_spec v hv, KmacEnc.rightEncode_spec v hv⟩
+
+/-- `encode_string` for every string whose bit length fits 64 bits -/
+theorem encodeString_spec (s : Bytes) (hs : s.length * 8 < 2 ^ 64) :
+    KmacEnc.Code.encodeString s = KmacEnc.Spec.encodeString s := by
+  unfold KmacEnc.Code.encodeString KmacEnc.Spec.encodeString
+  rw [Nat.mod_eq_of_lt hs, KmacEnc.leftEncode_spec _ hs]
+
+/-- **`bytepad` of the code (with the pad length it computes now) is SP 800-185's** -/
+theorem bytepad_spec (x : Bytes) (w : Nat) (hw : 0 < w) (hw64 : w < 2 ^ 64) :
+    KmacEnc.Code.bytepad x w = KmacEnc.Spec.bytepad x w := by
+  unfold KmacEnc.Code.bytepad KmacEnc.Code.bytepadWith KmacEnc.Spec.bytepad
+  simp only [padlen_spec _ w hw, KmacEnc.leftEncode_spec w hw64]
+
+/-- **KMAC128 of the code equals NIST SP 800-185 KMAC128** for every key, customizer, data and output size
+    (x/crypto's cSHAKE128 being the standard function: correspondence) -/
+theorem kmac_eq_spec (key cust : Bytes) (outputSize : Int) (k : Hash.Kmac.Obj)
+    (hk : Hash.Kmac.new? key cust outputSize = some k) (hkey : key.length * 8 < 2 ^ 64)
+    (hout : outputSize.toNat * 8 < 2 ^ 64) (data : Bytes) :
+    k.computeHash data = Hash.Kmac.spec key cust data outputSize.toNat := by
+  unfold Hash.Kmac.new? at hk
+  split at hk; · cases hk
+  split at hk; · cases hk
+  cases hk
+  unfold Hash.Kmac.Obj.computeHash Hash.Kmac.spec
+  simp only
+  rw [Nat.mod_eq_of_lt hout, KmacEnc.rightEncode_spec _ hout, encodeString_spec key hkey,
+    bytepad_spec _ _ (by decide) (by decide)]
+
 /-- constructor guards of `NewKMAC_128` -/
 theorem kmac_guard (key cust : Bytes) (outputSize : Int) :
     (Hash.Kmac.new? key cust outputSize).isSome ↔ 0 ≤ outputSize ∧ 16 ≤ key.length := by
@@ -167,6 +200,10 @@ end Props.C13
 #print axioms Props.C13.tie_params
 #print axioms Props.C13.padlen_spec
 #print axioms Props.C13.bytepad_aligned_minimal
+#print axioms Props.C13.encoders_spec
+#print axioms Props.C13.encodeString_spec
+#print axioms Props.C13.bytepad_spec
+#print axioms Props.C13.kmac_eq_spec
 #print axioms Props.C13.kmac_guard
 #print axioms Props.C13.tie_kmac_guards
 #print axioms Props.C13.kmac_sum_then_write
